@@ -285,10 +285,11 @@ func c09Run(c *core.Ctx) {
 		ts := dyn.Types[s]
 		return c09Point(ts.Bits, isF32(d), rawToAmp(ts.Kind, ts.Bits, in), math.Float64frombits(out))
 	}
+	wait := c.ReverseOrderPassAsync("mc-shim") // a process of its own, meanwhile
 	ctxPasses(c, "C09", c09Judge, false, fixedToFloat)
 	c.Set("ctx_digests", digests)
 	c.Set("evaluations", evals.Load()+c.CtxEvals())
-	c.ReverseOrderPass("mc-shim")
+	wait()
 	c.Set("instantiations", inst)
 	c.Set("instantiations_with_exhaustive_source_domain", exh)
 	c.Set("exhaustive", exh == inst)
